@@ -36,6 +36,7 @@ ROOT = os.path.dirname(os.path.dirname(os.path.abspath(__file__)))
 # registered checks never set it and always import /repo's working tree.
 PKG_ROOT = os.path.realpath(os.environ.get("VERIF_PKG_ROOT", "/repo"))
 REPO_PKG = os.path.join(PKG_ROOT, "tradingenv")
+VERIF_ROOT = os.path.realpath(ROOT)
 if PKG_ROOT != "/repo":
     sys.path.insert(0, PKG_ROOT)
 
@@ -99,10 +100,25 @@ def reset_globals():
 
 
 def innermost_in_repo(exc):
+    """True when the exception was raised by tradingenv code, or by a third-party library that tradingenv (not the
+    harness) called: walking outwards from the raising frame, the first frame that belongs to either tradingenv or
+    /verif decides."""
     tb = traceback.extract_tb(exc.__traceback__)
-    if not tb:
-        return False
-    return os.path.realpath(tb[-1].filename).startswith(REPO_PKG)
+    for fr in reversed(tb):
+        fn = os.path.realpath(fr.filename)
+        if fn.startswith(REPO_PKG):
+            return True
+        if fn.startswith(VERIF_ROOT):
+            return False
+    return False
+
+
+def repo_frame(exc):
+    tb = traceback.extract_tb(exc.__traceback__)
+    for fr in reversed(tb):
+        if os.path.realpath(fr.filename).startswith(REPO_PKG):
+            return fr
+    return tb[-1]
 
 
 def execute(part, case):
@@ -116,7 +132,7 @@ def execute(part, case):
     except Exception as exc:  # noqa
         if innermost_in_repo(exc):
             res = Result()
-            tb = traceback.extract_tb(exc.__traceback__)[-1]
+            tb = repo_frame(exc)
             res.fail("unexpected exception from tradingenv: %s: %s (%s:%s)" % (
                 type(exc).__name__, str(exc)[:200], os.path.basename(tb.filename), tb.lineno))
             res.tag("unexpected-exception")
